@@ -421,9 +421,43 @@ type C17E2ECase struct {
 	EarlierSimple []bool `json:"earlier_simple,omitempty"`
 	// RetryAfter: error statuses carry this Retry-After header (the statement's wait is a function of the configuration alone)
 	RetryAfter string `json:"retry_after,omitempty"`
+	// JSONBody: error statuses are sent as application/json (the status still decides the class: the statement names the statuses)
+	JSONBody bool `json:"json_body,omitempty"`
+	// EndAt k >= 1: the caller's context ends when the k-th wait of the scripted call begins; EndHow says whether it is cancelled or its deadline passes
+	EndAt  int    `json:"end_at,omitempty"`
+	EndHow string `json:"end_how,omitempty"`
 }
 
 var c17Bodies = []string{"scripted status", "", "upstream said 500 Internal", "retry in 500 ms", "code 503", "error 429 ", "ok"}
+
+// bodies sent as application/json: JSON-RPC error objects, a result object, other JSON
+var c17JSONBodies = []string{`{"jsonrpc":"2.0","id":null,"error":{"code":-32000,"message":"busy"}}`, `{"jsonrpc":"2.0","id":1,"error":{"code":-32603,"message":"try again"}}`,
+	`{"jsonrpc":"2.0","id":1,"result":{}}`, `{"error":"rate limited"}`, `[]`, `{"jsonrpc":"2.0","id":2,"error":{"code":-32002,"message":"Session not found"}}`}
+
+// manualCtx is a caller's context whose end the harness decides: cancelled, or its deadline passed.
+type manualCtx struct {
+	context.Context
+	done chan struct{}
+	mu   sync.Mutex
+	err  error
+}
+
+func newManualCtx() *manualCtx { return &manualCtx{Context: context.Background(), done: make(chan struct{})} }
+func (m *manualCtx) Done() <-chan struct{} { return m.done }
+func (m *manualCtx) Err() error {
+	m.mu.Lock()
+	defer m.mu.Unlock()
+	return m.err
+}
+func (m *manualCtx) Deadline() (time.Time, bool) { return time.Now().Add(time.Hour), true }
+func (m *manualCtx) end(err error) {
+	m.mu.Lock()
+	if m.err == nil {
+		m.err = err
+		close(m.done)
+	}
+	m.mu.Unlock()
+}
 
 func genC17E2E(t *rapid.T) C17E2ECase {
 	c := C17E2ECase{Kind: rapid.IntRange(0, 1).Draw(t, "kind"), Retry: rapid.IntRange(0, 4).Draw(t, "retry") != 0, Simple: rapid.IntRange(0, 3).Draw(t, "simple") == 0,
@@ -441,6 +475,26 @@ func genC17E2E(t *rapid.T) C17E2ECase {
 		}
 	}
 	c.RetryAfter = rapid.SampledFrom([]string{"", "", "2", "120", "0", "Wed, 21 Oct 2099 07:28:00 GMT", "soon"}).Draw(t, "retryafter")
+	if rapid.IntRange(0, 3).Draw(t, "jsonbody?") == 0 {
+		c.JSONBody = true
+		c.Body = rapid.SampledFrom(c17JSONBodies).Draw(t, "jsonbody")
+	}
+	if c.Retry {
+		lead := 0
+		for lead < len(c.Script) && lead < v.MaxRetries {
+			if tr, named := transientOutcome(c.Script[lead]); !tr || !named {
+				break
+			}
+			lead++
+		}
+		if c.Simple {
+			lead = 0 // the ranges of WithSimpleRetry(n) are the library's defaults; the waits there are real
+		}
+		if lead > 0 && rapid.IntRange(0, 2).Draw(t, "end?") == 0 {
+			c.EndAt = rapid.IntRange(1, lead).Draw(t, "endat")
+			c.EndHow = rapid.SampledFrom([]string{"cancel", "deadline"}).Draw(t, "endhow")
+		}
+	}
 	if c.Kind == 1 && rapid.IntRange(0, 3).Draw(t, "streamfail?") == 0 {
 		c.StreamFail = rapid.IntRange(1, 3).Draw(t, "streamfail")
 	}
@@ -490,7 +544,7 @@ func execC17E2E(c C17E2ECase) *Failure {
 		return FakeAction{Kind: "http", Status: st}
 	}
 	// status bodies: wrap the fake to replace the default text
-	sb := &statusBody{f: fake, body: c.Body, failGets: c.StreamFail, retryAfter: c.RetryAfter}
+	sb := &statusBody{f: fake, body: c.Body, failGets: c.StreamFail, retryAfter: c.RetryAfter, json: c.JSONBody}
 	br := &Bridge{H: sb}
 	br.Fault = func(r *SeenReq) error {
 		if r.RPC != method {
@@ -561,12 +615,25 @@ func execC17E2E(c C17E2ECase) *Failure {
 	}
 	var e2eWaits []time.Duration
 	recordWaits := false
+	callCtx := newManualCtx()
+	defer callCtx.end(context.Canceled)
 	mcp.VerifSetBackoffObserver(func(d time.Duration) bool {
 		mu.Lock()
+		n := 0
 		if recordWaits {
 			e2eWaits = append(e2eWaits, d)
+			n = len(e2eWaits)
 		}
 		mu.Unlock()
+		if c.EndAt > 0 && n == c.EndAt {
+			// the caller's context ends inside this wait: the library performs its own wait and must notice
+			if c.EndHow == "deadline" {
+				callCtx.end(context.DeadlineExceeded)
+			} else {
+				callCtx.end(context.Canceled)
+			}
+			return false
+		}
 		return true
 	})
 	defer mcp.VerifSetBackoffObserver(nil)
@@ -600,11 +667,33 @@ func execC17E2E(c C17E2ECase) *Failure {
 	mu.Lock()
 	recordWaits = true
 	mu.Unlock()
-	callErr := doCall(cl, c.Call)
+	var callErr error
+	if c.EndAt > 0 {
+		ended := make(chan error, 1)
+		go func() { ended <- doCallCtx(callCtx, cl, c.Call) }()
+		select {
+		case callErr = <-ended:
+		case <-time.After(20 * time.Second):
+			return TimingFailf("C17/cancel-ignored", "kind=%d cfg=%+v script=%v: the caller's context ended (%s) when wait %d began; the call had not returned 20 s later", c.Kind, v, c.Script, c.EndHow, c.EndAt)
+		}
+	} else {
+		callErr = doCall(cl, c.Call)
+	}
 	mu.Lock()
 	got := attempt
 	waitsSeen := append([]time.Duration(nil), e2eWaits...)
 	mu.Unlock()
+	if c.EndAt > 0 && len(waitsSeen) >= c.EndAt {
+		w0 := fmt.Sprintf("kind=%d cfg=%+v script=%v: the caller's context ended (%s) when wait %d began", c.Kind, v, c.Script, c.EndHow, c.EndAt)
+		if got > c.EndAt {
+			return Failf("C17/attempt-after-cancel", "%s; the peer saw %d attempts (the sequence must end at once)", w0, got)
+		}
+		// the client wraps the sequence's error in text of its own (not always with %w): the context's error must at least be named
+		if callErr == nil || !(errors.Is(callErr, callCtx.Err()) || strings.Contains(callErr.Error(), callCtx.Err().Error())) {
+			return Failf("C17/cancel-error", "%s; the call returned %v, want the context's error %v", w0, callErr, callCtx.Err())
+		}
+		return nil
+	}
 	if c.Retry {
 		// the k-th wait is InitialBackoff x Factor^(k-1) capped at MaxBackoff - whatever the failed answer says
 		for k, d := range waitsSeen {
@@ -664,6 +753,7 @@ type statusBody struct {
 	failGets   int
 	gets       atomic.Int64
 	retryAfter string
+	json       bool
 }
 
 func (s *statusBody) ServeHTTP(w http.ResponseWriter, r *http.Request) {
@@ -673,7 +763,7 @@ func (s *statusBody) ServeHTTP(w http.ResponseWriter, r *http.Request) {
 			return
 		}
 	}
-	s.f.ServeHTTP(&bodyRewriter{ResponseWriter: w, body: s.body, retryAfter: s.retryAfter}, r)
+	s.f.ServeHTTP(&bodyRewriter{ResponseWriter: w, body: s.body, retryAfter: s.retryAfter, json: s.json}, r)
 }
 
 // bodyRewriter replaces the body of error statuses by a scripted text.
@@ -683,12 +773,16 @@ type bodyRewriter struct {
 	status     int
 	done       bool
 	retryAfter string
+	json       bool
 }
 
 func (b *bodyRewriter) WriteHeader(code int) {
 	b.status = code
 	if code >= 400 && b.retryAfter != "" {
 		b.Header().Set("Retry-After", b.retryAfter)
+	}
+	if code >= 400 && b.json {
+		b.Header().Set("Content-Type", "application/json")
 	}
 	b.ResponseWriter.WriteHeader(code)
 }
